@@ -1,40 +1,228 @@
-//! serde round trips (C06) and mutated inputs (C11).
+//! serde round trips (C06) and mutated inputs (C11): the real token stream (possibly mutated) is
+//! written on the op line, so the Lean model deserializes exactly what the real code is given.
 use crate::comps::*;
 use crate::core::*;
 use crate::family::Family;
+use crate::rng::Rng;
+use serde_assert::{Token, Tokens};
 use std::sync::atomic::Ordering;
 
-pub fn exec_serde<F: Family>(
-    it: &mut Interp<F>,
-    w: usize,
-    src: usize,
-    rows: bool,
-    e: u64,
-    front: &str,
-    mutation: &[String],
-) -> Option<String> {
-    if src >= it.worlds.len() || src == w {
+pub fn tok_to_text(t: &Token) -> String {
+    match t {
+        Token::U8(n) => format!("b{}", n),
+        Token::U64(n) => format!("u{}", n),
+        Token::Tuple { len } => format!("T{}", len),
+        Token::TupleEnd => "t".to_string(),
+        Token::Seq { len: Some(l) } => format!("Q{}", l),
+        Token::Seq { len: None } => "Q?".to_string(),
+        Token::SeqEnd => "q".to_string(),
+        Token::Struct { name, len } => format!("S{}:{}", name, len),
+        Token::Field(name) => format!("f{}", name),
+        Token::Str(s) => format!("r{}", s.replace(',', "_").replace(' ', "_")),
+        Token::StructEnd => "s".to_string(),
+        Token::NewtypeStruct { name } => format!("N{}", name),
+        other => format!("x{}", format!("{:?}", other).replace(',', "_").replace(' ', "_")),
+    }
+}
+
+fn leak(s: &str) -> &'static str {
+    Box::leak(s.to_string().into_boxed_str())
+}
+
+pub fn text_to_tok(s: &str) -> Token {
+    let (head, rest) = s.split_at(1.min(s.len()));
+    match head {
+        "b" => rest.parse().map(Token::U8).unwrap_or(Token::Unit),
+        "u" => rest.parse().map(Token::U64).unwrap_or(Token::Unit),
+        "T" => rest.parse().map(|len| Token::Tuple { len }).unwrap_or(Token::Unit),
+        "t" if rest.is_empty() => Token::TupleEnd,
+        "Q" => {
+            if rest == "?" {
+                Token::Seq { len: None }
+            } else {
+                rest.parse().map(|l| Token::Seq { len: Some(l) }).unwrap_or(Token::Unit)
+            }
+        }
+        "q" if rest.is_empty() => Token::SeqEnd,
+        "S" => match rest.split_once(':') {
+            Some((n, l)) => l.parse().map(|len| Token::Struct { name: leak(n), len }).unwrap_or(Token::Unit),
+            None => Token::Unit,
+        },
+        "f" => Token::Field(leak(rest)),
+        "r" => Token::Str(rest.to_string()),
+        "s" if rest.is_empty() => Token::StructEnd,
+        "N" => Token::NewtypeStruct { name: leak(rest) },
+        _ => Token::Unit,
+    }
+}
+
+pub fn toks_text(t: &[String]) -> String {
+    if t.is_empty() { "-".to_string() } else { t.join(",") }
+}
+
+/// One random token-level mutation. Returns a short description.
+pub fn mutate(toks: &mut Vec<String>, rng: &mut Rng) -> String {
+    if toks.is_empty() {
+        toks.push("u0".into());
+        return "push".into();
+    }
+    let n = toks.len() as u64;
+    let numeric: Vec<usize> = (0..toks.len()).filter(|i| toks[*i].starts_with('u') || toks[*i].starts_with('b')).collect();
+    let heads: Vec<usize> = (0..toks.len()).filter(|i| toks[*i].starts_with('T') || toks[*i].starts_with('Q')).collect();
+    let fields: Vec<usize> = (0..toks.len()).filter(|i| toks[*i].starts_with('f')).collect();
+    match rng.below(100) {
+        0..=39 if !numeric.is_empty() => {
+            // alter a number: lengths, identifier bytes, entity indices/generations, free list, values
+            let i = numeric[rng.below(numeric.len() as u64) as usize];
+            let is_byte = toks[i].starts_with('b');
+            let old: u64 = toks[i][1..].parse().unwrap_or(0);
+            let new = match rng.below(8) {
+                0 => 0,
+                1 => old + 1,
+                2 => old.saturating_sub(1),
+                3 => old ^ (1 << rng.below(8)),
+                4 => {
+                    // copy another number of the stream (duplicates an index / identity)
+                    let j = numeric[rng.below(numeric.len() as u64) as usize];
+                    toks[j][1..].parse().unwrap_or(0)
+                }
+                5 => rng.below(6),
+                6 => old + 2 + rng.below(3),
+                _ => 40 + rng.below(20),
+            };
+            let new = if is_byte { new % 256 } else { new };
+            toks[i] = format!("{}{}", if is_byte { "b" } else { "u" }, new);
+            format!("alter@{}:{}->{}", i, old, new)
+        }
+        40..=51 => {
+            let i = rng.below(n) as usize;
+            toks.remove(i);
+            format!("delete@{}", i)
+        }
+        52..=63 => {
+            let i = rng.below(n) as usize;
+            let t = toks[i].clone();
+            toks.insert(i, t);
+            format!("dup@{}", i)
+        }
+        64..=71 if n >= 2 => {
+            let i = rng.below(n - 1) as usize;
+            toks.swap(i, i + 1);
+            format!("swap@{}", i)
+        }
+        72..=81 if !heads.is_empty() => {
+            let i = heads[rng.below(heads.len() as u64) as usize];
+            let h = toks[i][..1].to_string();
+            let old: u64 = toks[i][1..].parse().unwrap_or(0);
+            let new = if rng.below(2) == 0 { old + 1 } else { old.saturating_sub(1) };
+            toks[i] = format!("{}{}", h, new);
+            format!("header@{}:{}->{}", i, old, new)
+        }
+        82..=89 if !fields.is_empty() => {
+            let i = fields[rng.below(fields.len() as u64) as usize];
+            let names = ["index", "generation", "length", "free", "bogus"];
+            toks[i] = format!("f{}", names[rng.below(names.len() as u64) as usize]);
+            format!("field@{}", i)
+        }
+        90..=94 => {
+            let i = rng.below(n) as usize;
+            toks.truncate(i);
+            format!("truncate@{}", i)
+        }
+        _ => {
+            // duplicate or drop a whole bracketed element (an archetype, a row, a column, an identifier)
+            let opens: Vec<usize> = (0..toks.len()).filter(|i| matches!(&toks[*i][..1], "T" | "Q" | "S" | "N")).collect();
+            if opens.is_empty() {
+                return "noop".into();
+            }
+            let i = opens[rng.below(opens.len() as u64) as usize];
+            let mut depth = 0i64;
+            let mut j = i;
+            let mut started = false;
+            while j < toks.len() {
+                match &toks[j][..1] {
+                    "T" | "Q" | "S" => { depth += 1; started = true; }
+                    "t" | "q" | "s" => depth -= 1,
+                    _ => {}
+                }
+                if started && depth == 0 { break; }
+                j += 1;
+            }
+            if j >= toks.len() {
+                return "noop".into();
+            }
+            let chunk: Vec<String> = toks[i..=j].to_vec();
+            if rng.below(2) == 0 {
+                for (k, t) in chunk.into_iter().enumerate() {
+                    toks.insert(j + 1 + k, t);
+                }
+                format!("dup-elem@{}..{}", i, j)
+            } else {
+                toks.drain(i..=j);
+                format!("drop-elem@{}..{}", i, j)
+            }
+        }
+    }
+}
+
+/// Serialize `src` with the real code and build the `de` op carrying the (possibly mutated) tokens.
+pub fn build_de<F: Family>(it: &Interp<F>, src: usize, rows: bool, e: u64, mutation: &[String]) -> Option<Op> {
+    let world = it.worlds.get(src)?.as_ref()?;
+    let tokens = F::ser_tokens(world, rows).ok()?;
+    let mut text: Vec<String> = tokens.0.iter().map(tok_to_text).collect();
+    let mut tag = src.to_string();
+    if let Some(seed) = mutation.first().and_then(|s| s.strip_prefix("seed=")).and_then(|s| s.parse::<u64>().ok()) {
+        let mut rng = Rng::new(seed);
+        let k = 1 + rng.below(2);
+        for _ in 0..k {
+            mutate(&mut text, &mut rng);
+        }
+        tag = "-".to_string();
+    }
+    Some(Op::Raw("de".into(), vec![if rows { "rows" } else { "cols" }.to_string(), e.to_string(), tag, toks_text(&text)]))
+}
+
+/// `de <rows|cols> <epoch> <src|-> <tokens>`: deserialize the tokens into slot `w`.
+pub fn exec_de<F: Family>(it: &mut Interp<F>, w: usize, args: &[String]) -> Option<String> {
+    if args.len() != 4 {
         return None;
     }
-    if it.worlds[src].is_none() {
-        return Some("no-world".into());
-    }
-    if front != "tokens" || !mutation.is_empty() {
-        return None;
-    }
-    let tokens = match F::ser_tokens(it.worlds[src].as_ref().unwrap(), rows) {
-        Ok(t) => t,
-        Err(e) => return Some(format!("err ser {}", e)),
-    };
+    let rows = args[0] == "rows";
+    let e: u64 = args[1].parse().ok()?;
+    let toks: Vec<Token> = if args[3] == "-" { vec![] } else { args[3].split(',').map(text_to_tok).collect() };
     EPOCH.store(e, Ordering::SeqCst);
-    match F::de_tokens(tokens, rows) {
+    let zst = with_ledger(|l| l.zst.clone());
+    match F::de_tokens(Tokens(toks), rows) {
         Ok(nw) => {
             let old = it.worlds[w].take();
             drop(old);
             it.worlds[w] = Some(nw);
-            it.issued[w] = it.issued[src].clone();
-            Some("ok drops=@".into())
+            let mut eq = String::new();
+            if let Ok(src) = args[2].parse::<usize>() {
+                if src < it.issued.len() && src != w && it.worlds[src].is_some() {
+                    it.issued[w] = it.issued[src].clone();
+                    // C06: the round-tripped world must compare equal to its source
+                    let (a, b) = pair_mut(&mut it.worlds, src, w);
+                    eq = format!(" eq={}", F::eq(a.as_ref().unwrap(), b.as_ref().unwrap()) as u8);
+                }
+            }
+            Some(format!("ok{} drops=@", eq))
         }
-        Err(_e) => Some("err de".into()),
+        Err(_e) => {
+            // values created by the failed attempt: dropped by the cleanup paths or (partial row)
+            // leaked — forget what is left of this epoch; double drops were already flagged
+            let leaked = with_ledger(|l| {
+                let before = l.live.len();
+                l.live.retain(|(_, id), _| id / EPOCH_BASE != e);
+                let z: i64 = l.zst.iter().map(|(k, v)| v - zst.get(k).copied().unwrap_or(0)).sum();
+                l.zst = zst.clone();
+                (before - l.live.len()) as i64 + z
+            });
+            if leaked > 0 {
+                *it.stats.entry("de:err-leaked-values".to_string()).or_insert(0) += leaked as u64;
+            }
+            take_drops();
+            Some("err".into())
+        }
     }
 }
